@@ -84,7 +84,7 @@ class C15(Prop):
                 kind = r.choice(["type", "any"])
                 t = r.choice(G.TEST_NAMES)
                 paths = r.choice([["nickname", "token"], ["a.b", "token", "user.name"], ["token", "nickname", "user.name"]])
-                ms = [{"kind": kind, "type": "string", "paths": paths, "errOnMissing": False}]
+                ms = [{"kind": kind, "type": "string", "paths": paths, "errOnMissing": False, "stmt": r.chance(1, 2)}]
                 doc = {"token": r.choice(["t1", "secret"]), "user": {"name": "n"}, "n": 1}
                 ph = "<Type:string>" if kind == "type" else "<Any value>"
                 exp = {"token": ph, "user": {"name": ph if "user.name" in paths else "n"}, "n": 1}
@@ -106,10 +106,20 @@ class C15(Prop):
                 # ONE Type matcher whose path list holds an ancestor BEFORE its descendant (left to right: once the ancestor
                 # is replaced the descendant no longer exists; with ErrOnMissingPath(false) it is ignored)
                 t = r.choice(G.TEST_NAMES)
-                if r.chance(1, 2):
+                k3 = r.below(3)
+                if k3 == 0:
                     doc = {"data": {"attrs": {"a": 1}, "sib": 2}, "n": 1}
                     ms = [{"kind": "type", "type": "map", "paths": ["data", "data.attrs"], "errOnMissing": False}]
                     exp = {"data": "<Type:map[string]interface {}>", "n": 1}
+                elif k3 == 1:
+                    # the same with ONE Any matcher (ancestor, then its descendant / an element of it)
+                    doc = {"id": 7, "user": {"name": "mock-user", "email": "mock-email"}, "items": [{"x": 1}, {"x": 2}], "tags": ["a", "b"]}
+                    paths = r.choice([["user", "user.name"], ["items", "items.1.x"], ["user", "user.name", "tags.0"]])
+                    ms = [{"kind": "any", "paths": paths, "errOnMissing": False}]
+                    exp = dict(doc)
+                    exp[paths[0]] = "<Any value>"
+                    if "tags.0" in paths:
+                        exp["tags"] = ["<Any value>", "b"]
                 else:
                     doc = {"items": [{"id": 1}, {"id": 2.5}], "n": 1}
                     ms = [{"kind": "type", "type": "slice", "paths": ["items"], "errOnMissing": False},
